@@ -84,6 +84,8 @@ type Explorer struct {
 	ifConverted int64
 	mergedCalls int
 	oneShots    int64
+	tFeas, tObl int64
+	nFeasI, nOblI int64
 	winners     map[string]int
 	Race        []string
 	mergedPaths int
@@ -166,6 +168,8 @@ type Report struct {
 	Wall         time.Duration
 	Truncated    bool
 	ObservedByPt [][]string
+	OneShots     int64
+	Winners      map[string]int
 }
 
 // Run explores the harness with the configured number of workers.
@@ -246,6 +250,7 @@ func (x *Explorer) Run() *Report {
 	wg.Wait()
 	rep.IfConverted = atomic.LoadInt64(&x.ifConverted)
 	rep.Notes = x.notes
+	rep.OneShots, rep.Winners = x.Stats()
 	rep.Wall = time.Since(start)
 	return rep
 }
@@ -324,7 +329,24 @@ func (x *Explorer) runPath(solver *smt.Solver, script []int) (res *PathResult) {
 		}
 		in.initDone = true
 		in.call(nil, token.NoPos, x.Fn, nil)
+		p.flushBatch()
 	}()
+	if res.Status == "stopped" {
+		res.Status = "ok"
+	}
+	if res.Status == "infeasible" && len(p.batch) > 0 {
+		// obligations stated before the path turned out infeasible still count
+		func() {
+			defer func() {
+				if r := recover(); r != nil {
+					if ap, ok := r.(abortPath); ok && ap.kind == "violation" {
+						res.Status, res.Msg = ap.kind, ap.msg
+					}
+				}
+			}()
+			p.flushBatch()
+		}()
+	}
 	solver.Pop()
 	res.Script = p.fullScript()
 	res.Alts = p.alts
@@ -390,4 +412,19 @@ func (x *Explorer) Stats() (oneShots int64, winners map[string]int) {
 		w[k] = v
 	}
 	return atomic.LoadInt64(&x.oneShots), w
+}
+
+func (x *Explorer) addTime(obl bool, d time.Duration) {
+	if obl {
+		atomic.AddInt64(&x.tObl, int64(d))
+		atomic.AddInt64(&x.nOblI, 1)
+	} else {
+		atomic.AddInt64(&x.tFeas, int64(d))
+		atomic.AddInt64(&x.nFeasI, 1)
+	}
+}
+
+// Timing returns incremental-query timing (feasibility / obligation).
+func (x *Explorer) Timing() string {
+	return fmt.Sprintf("incr feas %d q %.1fs, incr obl %d q %.1fs", x.nFeasI, time.Duration(x.tFeas).Seconds(), x.nOblI, time.Duration(x.tObl).Seconds())
 }
